@@ -58,6 +58,40 @@ CHECK_DEADLOCK FALSE
     return total
 
 
+def record_validate(v, wd, tier, prop):
+    """Direction V: long random programs / step schedules / limit trees recorded from the real Runtime, validated by
+    Trace_Runtime (TLC)."""
+    from concurrent.futures import ThreadPoolExecutor
+    import c_fes
+    runs = 25 if tier == "quick" else 250
+    files = [os.path.join(wd, f"rtrace{i}.ndjson") for i in range(vlib.NCPU)]
+    outs = vlib.run_vh_parallel([["rt", "record", "--seed", str(vlib.seed() * 1000 + i), "--runs", str(runs), "--out", f]
+                                 for i, f in enumerate(files)])
+    tot = vlib.collect(v, outs, "rt", "running random programs")
+    for m in tot.get("mismatches", [])[:3]:
+        v.add_violation(f"random program: {m.get('field')}", m, {"suite": "rt", "field": m.get("field")})
+    consts = "MaxT = 100000 MaxId = 100000 MaxSteps = 100000 MaxExt = 100000 Menu = {} Seed = TRUE Starts = {0} Limits = {}"
+
+    def one(i):
+        if "crash" in outs[i] or "hang" in outs[i] or not os.path.exists(files[i]):
+            return 0, [], None
+        return c_fes.validate_trace_file("Trace_Runtime", consts, files[i], wd, f"r{i}", reset_marker='"op":"cfg"')
+    with ThreadPoolExecutor(max_workers=8) as ex:
+        results = list(ex.map(one, range(len(files))))
+    acc = 0
+    for a, rej, r in results:
+        acc += a
+        if r is not None:
+            v.add_tlc("Trace_Runtime validation", r)
+        for x in rej:
+            i = x["first_unmatched_line_in_run"]
+            v.add_violation(f"recorded run of the real Runtime is not a behaviour of Runtime.tla: first unmatched line {i}: "
+                            f"{json.dumps(x['run'][i - 1])[:300]}", x, {"suite": "rt", "kind": "trace"})
+    v.cov["traces_validated_against_impl"] += acc
+    v.cov["recorded_runs_accepted"] = acc
+    log(f"[{prop}] Trace_Runtime: {acc} recorded random programs accepted")
+
+
 def c02(tier):
     v = Verdict("C02", tier)
     vlib.build_harness()
@@ -73,6 +107,7 @@ def c02(tier):
                    "programs with past/present/future adds, start in {0,2,3}")
         gen_replay(v, wd, tier, "C02", "MaxT = 3 MaxId = 3 MaxSteps = 2 MaxExt = 3\n Menu <- MenuPast Seed = TRUE Starts = {0, 2} Limits <- LimitsNone", 8,
                    "external adds while paused", tag="g2")
+    record_validate(v, wd, tier, "C02")
     v.cov["rule"] = ("every behaviour of Runtime.tla in the bound (program = handler follow-up lists chosen by TLC, external adds at "
                      "past/present/future times, start times) replayed on des::runtime::Runtime under a grid of cqueue options and "
                      "time embeddings; non-trivial = has a tie, several steps, or stops with events remaining")
@@ -101,6 +136,7 @@ def c10(tier):
                    "all step schedules (<=3 calls), two external adds anywhere")
         gen_replay(v, wd, tier, "C10", "MaxT = 2 MaxId = 4 MaxSteps = 3 MaxExt = 1\n Menu <- MenuTies Seed = TRUE Starts = {0} Limits <- LimitsNone", 8,
                    "tie-heavy programs", tag="g2")
+    record_validate(v, wd, tier, "C10")
     v.cov["rule"] = ("every way of cutting the run of every program in the bound into dispatch_n_events / dispatch_events_until / "
                      "dispatch_all calls, with external adds between calls; compared with the contract and, for schedules that end in "
                      "dispatch_all+finish, with an uninterrupted run() of the same program")
@@ -119,7 +155,8 @@ def c11(tier):
     else:
         gen_replay(v, wd, tier, "C11", "MaxT = 3 MaxId = 4 MaxSteps = 1 MaxExt = 2\n Menu <- MenuSmall Seed = TRUE Starts = {0, 2} Limits <- LimitsAll", 10,
                    "all programs x 20 limit trees x start times")
-    v.cov["rule"] = ("every program in the bound under each of 15 limit trees (None, EventCount, SimTime, nested And/Or; also built by "
+    record_validate(v, wd, tier, "C11")
+    v.cov["rule"] = ("every program in the bound under each of 20 limit trees (None, EventCount, SimTime, nested And/Or; also built by "
                      "Builder::max_itr/max_time): handled prefix, end time, event_count and the (id,time) multiset of remaining events")
     v.cov["exhaustive"] = True
     return v.finish()
